@@ -1,4 +1,5 @@
 import BigtoolsModel.FileOfBed
+import BigtoolsModel.FiltersGen
 import BigtoolsModel.OverlapsGen
 import BigtoolsModel.BlockSpan
 import BigtoolsModel.Query
@@ -72,3 +73,13 @@ theorem C04_source_overlaps_is_the_models_ov (q qs qe b1 b1s b2 b2e : Nat) :
   gen_overlaps_eq_ov q qs qe b1 b1s b2 b2e
 
 end RT
+
+namespace BBI
+open CD
+
+/-- **The code's own range filter, bigBed**: the `if` condition of `get_block_entries` that mentions both query bounds,
+    regenerated from bigbedread.rs on every run, is the `bedKeep` of the query theorems. -/
+theorem C04_source_filter_is_bedKeep (qs qe : Nat) (x : Entry) : Gen.bed_keep x.s x.e qs qe = bedKeep qs qe x :=
+  gen_bed_filter qs qe x
+
+end BBI
